@@ -31,10 +31,15 @@ C05_Once == J => \A a, b \in 1..N :
                  => ~((Typ(Lg[a].q) = "CON" /\ IsRun(a)) \/ (IsReply(a) /\ Lg[a].ran))
 \* "each duplicate is instead answered with a reply of the same code, token, options and payload as the first one
 \*  (a bare acknowledgement if that is what the first copy got), matched to the duplicate's message ID"
+\* The reply that the processing of the first copy produced goes on the wire after the message-ID lock is released, so a
+\* duplicate that waited for the lock may be answered from the cache a moment EARLIER than the first copy - the order on
+\* the wire is not part of the statement; the reference is the reply of the copy whose handler ran (else the first one).
+RefReply(q, ep) == LET R == {k \in 1..N : IsReply(k) /\ Lg[k].q = q /\ Epoch(k) = ep /\ Lg[k].ran /\ Lg[k].kind = "resp"} IN
+                   IF R # {} THEN CHOOSE k \in R : \A j \in R : k <= j ELSE FirstReply(q, ep)
 C05_SameReply == J => \A k \in 1..N :
               (IsReply(k) /\ Attributed(k) /\ ~Lg[k].ran) =>
-                 LET f == FirstReply(Lg[k].q, Epoch(k)) IN
-                 /\ f # 0 /\ f < k
+                 LET f == IF Lg[k].kind = "ack" THEN FirstReply(Lg[k].q, Epoch(k)) ELSE RefReply(Lg[k].q, Epoch(k)) IN
+                 /\ f # 0
                  /\ Lg[k].code = Lg[f].code /\ Lg[k].tok = Lg[f].tok /\ Lg[k].opts = Lg[f].opts /\ Lg[k].pay = Lg[f].pay
                  /\ Lg[k].mid = Lg[k].rmid
 \* a request is never answered with a reply that was produced for another request
@@ -42,8 +47,9 @@ C05_NoForeignReply == J => \A k \in 1..N :
               (IsReply(k) /\ Attributed(k)) =>
                  IF Lg[k].kind = "ack" THEN Lg[k].mid = Lg[k].rmid
                  ELSE TokOK(k, Lg[k].q) /\ Prefix(Lg[k].pay, Expected(Lg[k].q))
-\* every emitted datagram belongs to the processing of some copy
-C05_Attributed == J => \A k \in 1..N : IsReply(k) => Attributed(k)
+\* conformance only: every emitted datagram belongs to the processing of some copy (a confirmable response that the
+\* sweep retransmits is written by the sweep's goroutine and is not attributed)
+K05_Attributed == J => \A k \in 1..N : IsReply(k) => Attributed(k)
 \* "once the lifetime has elapsed the ID is treated as fresh again" - and not before: the housekeeping sweep
 \* 50 ms before the first deadline removes nothing, the one 50 ms after the last removes everything; 247 s lifetime
 C05_Lifetime == J => \A k \in 1..N : Lg[k].e = "expire" => (Lg[k].copy = Lg[k].q /\ Lg[k].code = 0 /\ Lg[k].mid \in 245..247)
